@@ -222,6 +222,7 @@ func vsObserve(name string, v uint64)
 func vsObserveBytes(name string, v []byte)
 func vsUFU64(name string, args ...uint64) uint64
 func vsUFBytes(name string, outLen int, args ...[]byte) []byte
+func vsUFBytesInj(name string, outLen int, args ...[]byte) []byte
 func vsLockHeld(p interface{}) bool
 func vsAnyLockHeld() bool
 func vsRunUntilBlocked(f func()) bool
@@ -658,6 +659,15 @@ func (r *runner) discharge(h *HarnessCfg, res *HarnessResult, ex *Exec, solver *
 	}
 	for _, a := range ex.reaches {
 		v := solver.CheckSat(20000, a.PC)
+		if v == "unknown" {
+			qr := RunOneShot("z3", timeout, a.PC, nil, "")
+			v = qr.Verdict
+			if v == "unknown" || v == "error" {
+				qr = RunOneShot("cvc5", timeout, a.PC, nil, "")
+				v = qr.Verdict
+			}
+			atomic.AddInt64(&GStats.Queries, 1)
+		}
 		r.mu.Lock()
 		res.Reaches++
 		if res.reachIDs == nil {
@@ -671,6 +681,9 @@ func (r *runner) discharge(h *HarnessCfg, res *HarnessResult, ex *Exec, solver *
 			}
 		} else if !res.reachIDs[a.ID] {
 			res.reachIDs[a.ID] = false
+			if r.verbose {
+				fmt.Fprintf(os.Stderr, "   reach %s {%s}: %s\n", a.ID, a.Case, v)
+			}
 		}
 		r.mu.Unlock()
 	}
